@@ -71,7 +71,7 @@ impl Property for C05 {
             .boxed()
     }
     fn cases(&self, tier: Tier) -> u64 {
-        tier.pick(400_000, 14_000_000)
+        tier.pick(2_000_000, 25_000_000)
     }
     fn enumerate(&self, _tier: Tier, shard: usize, nshards: usize, emit: &mut Emit<Case>) {
         let mut ds: Vec<String> = vec![];
@@ -136,6 +136,10 @@ impl Property for C05 {
                 let mw = spell::cardinal(&c.lang, m, &mut Canon).join(" ");
                 let text = format!("{}{} {}", c.prefix, sep, mw);
                 let want = format!("{}{} {}", c.prefix, sep, m);
+                if neuf_set_aside(&c.lang, &text) {
+                    obs.exclude("fr-neuf-heuristic-set-aside");
+                    return Ok(());
+                }
                 let out = replace_numbers_in_text(&text, lg, 0.0);
                 if out != want {
                     return Err(format!("{} separator with no number before it: rewrite of {:?} = {:?}, expected {:?}", tag, text, out, want));
@@ -149,6 +153,10 @@ impl Property for C05 {
                 // the suffix starts with whitespace/punctuation + ordinary words, or is empty (end of text)
                 let text = format!("{} {}{}", nw, sep, c.suffix);
                 let want = format!("{} {}{}", c.n, sep, c.suffix);
+                if neuf_set_aside(&c.lang, &text) {
+                    obs.exclude("fr-neuf-heuristic-set-aside");
+                    return Ok(());
+                }
                 let out = replace_numbers_in_text(&text, lg, 0.0);
                 if out != want {
                     return Err(format!("{} nothing usable after the separator: rewrite of {:?} = {:?}, expected {:?}", tag, text, out, want));
@@ -172,6 +180,10 @@ impl Property for C05 {
                 let nw = spell::cardinal_nk(&c.lang, c.n, &mut ch).join(" ");
                 let text = format!("{}{} {} {}", c.prefix, nw, sep, mw[0]);
                 let want = format!("{}{} {} {}", c.prefix, c.n, sep, m);
+                if neuf_set_aside(&c.lang, &text) {
+                    obs.exclude("fr-neuf-heuristic-set-aside");
+                    return Ok(());
+                }
                 let out = replace_numbers_in_text(&text, lg, 0.0);
                 if out != want {
                     return Err(format!("{} a number >= 10 after the separator is not a fractional digit: rewrite of {:?} = {:?}, expected {:?}", tag, text, out, want));
